@@ -12,16 +12,18 @@ a Back / Back2 case popping slots that are not there, `backtrack()` on an empty 
 outside the capture arrays, an operator without a `case` — for every input, every start position and
 any number of iterations.  They hold for all well-formed programs, not only for those the writer emits.
 
-What they do not exclude (the faults with `Fault.structural = false`): `stackUnderflow`, `crawlUnderflow`,
-`tracktoRange`, `textposRange`, `capRange`.  These depend on the discipline of the grouping stack (what
-kind of value sits where), which is a property of the programs the writer emits, not of `wf`; leg W
-observes on every explored run that none of them occurs (the model would stop with a fault where Go
-returns a result).
+What the first two sections do not exclude (the faults with `Fault.structural = false`): `stackUnderflow`,
+`crawlUnderflow`, `tracktoRange`, `textposRange`, `capRange`.  These depend on the discipline of the grouping stack
+(what kind of value sits where), which is a property of the programs the writer emits, not of `wf`.  The last
+section ("The grouping-stack typing is a guarantee") excludes them too: for every program with a stack typing —
+hence (`emit_has_typing`) for every program the writer emits — no run ends in any fault (`emitted_no_fault`).
 -/
 import RegexVerif.Props.C10Parser
 import RegexVerif.Lemmas.VM
 import RegexVerif.Lemmas.Compose
 import RegexVerif.Lemmas.StackTyping
+import RegexVerif.Lemmas.StackTypingStep
+import RegexVerif.Lemmas.StackTypingEmit
 
 namespace RegexVerif.Props.C10
 open RegexVerif RegexVerif.VM RegexVerif.Code RegexVerif.Lemmas.VM
@@ -187,15 +189,14 @@ example : ∃ s0, init (emit info2 tree2) 1 = .ok s0 ∧
 example : ∃ qp, emitQuick info2 tree3 = some qp ∧ qp.wf = true ∧ qp.codes.toList = [23, 10, 31, 9, 120, 9, 121, 32, 0, -1, 40] :=
   ⟨_, rfl, by decide, by decide⟩
 
-/-! ### the grouping-stack typing (Model/StackTyping.lean): evaluated, not yet a guarantee
+/-! ### the grouping-stack typing (Model/StackTyping.lean)
 
 `StackTyping.typed p` — a height and a kind (text position / mark / counter / saved backtracking depth / saved
 crawl depth) for every grouping-stack slot at every instruction boundary, consistent along fall-through, jumps and
 the continuations of the Back cases — is decidable and leg W evaluates it on every compiled program
-(`W:untyped:<opcode>`).  That a typed well-formed program never raises `stackUnderflow`, `tracktoRange` or
-`textposRange` is NOT proved here (design.d/C10.md states the invariant the proof needs); the examples show the
-check is not vacuous: the emitted programs are typed, and a program that is `wf` and `potOk` but untyped runs into
-`stackUnderflow`. -/
+(`W:untyped:<opcode>`).  That a typed well-formed program never raises any fault is proved in the last section of
+this file (`typed_no_discipline_fault`); the examples here show the check is not vacuous: the emitted programs are
+typed, and a program that is `wf` and `potOk` but untyped runs into `stackUnderflow`. -/
 
 example : StackTyping.typed demo = true ∧ StackTyping.typed (emit info2 tree2) = true ∧
     StackTyping.maxHeight (emit info2 tree2) = 4 ∧
@@ -211,5 +212,142 @@ example : Lemmas.StackTyping.untypedDemo.wf = true ∧ potOk Lemmas.StackTyping.
      | .error _ => false) = true := by decide
 
 end Emitted
+
+/-! ------------------------------------------------------------------------------------------------
+### The grouping-stack typing is a guarantee (slice-typing)
+
+`Lemmas/StackTypingSound.lean`, `StackTypingCases.lean`, `StackTypingStep.lean`: an invariant over `step` that adds to
+the frame invariant above — the grouping stack has, at every instruction boundary, a refined type below the one the
+typing assigns there (text positions in `[0, len]`, marks in `[-1, len]`, the two slots of a `Setjump` holding exactly
+the crawl depth and the backtracking depth at which it ran); the backtracking stack is a chain in which every frame
+knows, through its saved code position and the typing there, the stack type its Back / Back2 case will find and the
+type and crawl depth it leaves to the frame below.
+------------------------------------------------------------------------------------------------ -/
+
+section TypingSound
+open RegexVerif.Lemmas.StackTyping RegexVerif.Lemmas.StackTypingSound
+
+/-- **(A) Soundness of the typing, Prop-level.**  A well-formed program with ANY grouping-stack typing `a`
+    (`TypingW`: `[]` at position 0, closed and consistent under the transfer function `flow`; `Lemmas.StackTyping.Typing`,
+    what `StackTyping.typed` checks, implies it): for every text, start position in the text, `\G` origin, oracle set and
+    number of iterations, the attempt starts and its run never ends in a fault of ANY kind — none of the eight structural
+    faults, no `stackUnderflow`, `tracktoRange`, `textposRange`, `crawlUnderflow`, `capRange`: the run returns, or is still
+    running when the fuel ends. -/
+theorem typing_sound (p : Prog) (h : p.wf = true) (bs : List Nat) (hb : p.boundaries = some bs)
+    (a : StackTyping.Assign) (hty : TypingW p bs a)
+    (env : Env) (pos : Int) (h0 : 0 ≤ pos) (hn : pos ≤ env.len) (fuel : Nat) :
+    ∃ s0, init p pos = .ok s0 ∧ ∀ f, (run p env fuel s0).1 ≠ .fault f := by
+  obtain ⟨bs', hwf⟩ := wf_spec h
+  have e : bs' = bs := by have := hwf.bnd; rw [hb] at this; cases this; rfl
+  subst e
+  obtain ⟨s0, hi, hinv⟩ := tinit_inv (env := env) (a := a) hwf pos h0 hn
+  refine ⟨s0, hi, fun f hf => ?_⟩
+  obtain ⟨h1, h2⟩ := trun_ok hwf hty fuel s0 hinv f hf
+  exact no_fault_left f h1 h2
+
+/-- **(A) Soundness of the evaluated check.**  `StackTyping.typed p = true` (what leg W evaluates on every compiled
+    program) and `p.wf = true`: no run of any attempt ends in a fault.  (The task's `typed_no_discipline_fault` asked for
+    `stackUnderflow`, `tracktoRange`, `textposRange`; this excludes all thirteen kinds.) -/
+theorem typed_no_discipline_fault (p : Prog) (h : p.wf = true) (ht : StackTyping.typed p = true)
+    (env : Env) (pos : Int) (h0 : 0 ≤ pos) (hn : pos ≤ env.len) (fuel : Nat) :
+    ∃ s0, init p pos = .ok s0 ∧ ∀ f, (run p env fuel s0).1 ≠ .fault f := by
+  obtain ⟨bs, hb, hty⟩ := typed_spec ht
+  exact typing_sound p h bs hb _ (Typing.toW hty) env pos h0 hn fuel
+
+/-- non-vacuity: `demo` (`(?:ab?)*c`) and the program of `(a)|b\1` are well-formed and typed — the theorem applies
+    to them on any input —, and the hypothesis `typed` cannot be dropped: `untypedDemo` (`Lazybranch 3; Getmark; Stop`)
+    is `wf`, not typed, and its attempt ends in `stackUnderflow` (example above) -/
+example : ∃ s0, init demo 0 = .ok s0 ∧ ∀ f, (run demo demoEnv 1000 s0).1 ≠ .fault f :=
+  typed_no_discipline_fault demo (by decide) (by decide) demoEnv 0 (by decide) (by decide) 1000
+example : ∃ s0, init (Writer.emit Lemmas.Compose.info2 Lemmas.Compose.tree2) 1 = .ok s0 ∧
+    ∀ f, (run (Writer.emit Lemmas.Compose.info2 Lemmas.Compose.tree2) demoEnv 1000 s0).1 ≠ .fault f :=
+  typed_no_discipline_fault _ (by decide) (by decide) demoEnv 1 (by decide) (by decide) 1000
+
+/-- **(B) Every emitted program has a grouping-stack typing.**  For every tree with `treeWf` an explicit assignment —
+    the stack type as a structural function of the tree position (`Lemmas.StackTypingEmit.tyAt`: each node's code maps
+    a stack of type `σ` at its start to `σ` at its end, with the intermediate shapes of the writer's frames) — satisfies
+    `TypingW` for the program `syntax.Write` produces.
+    NOT proved: `StackTyping.typed (emit ti root) = true` (that the executable inference finds a typing — completeness
+    of `infer`); it is not needed for the guarantee below and stays evaluated by leg W. -/
+theorem emit_has_typing (ti : Writer.TreeInfo) (root : Writer.GoNode) (h : Writer.treeWf ti root = true) :
+    ∃ bs a, (Writer.emit ti root).boundaries = some bs ∧ TypingW (Writer.emit ti root) bs a :=
+  Lemmas.StackTypingEmit.emit_typing ti root h
+
+/-- the same for the bool-only program -/
+theorem emitQuick_has_typing (ti : Writer.TreeInfo) (root : Writer.GoNode) (h : Writer.treeWf ti root = true)
+    (qp : Prog) (hq : Writer.emitQuick ti root = some qp) : ∃ bs a, qp.boundaries = some bs ∧ TypingW qp bs a :=
+  Lemmas.StackTypingEmit.emitQuick_typing ti root h qp hq
+
+/-- **(C) No interpreter fault for any pattern.**  For every well-formed tree, every text, every start position inside
+    the text, every `\G` origin, every oracle set and any number of iterations: the attempt of the emitted program
+    starts and its run never ends in a fault — none of the thirteen kinds of `VM.Fault`: no `Codes` / `Strings` / `Sets`
+    / `Runtext` access out of range, no pop below the bottom of the backtracking, grouping or crawl stack, no `trackto`
+    to a depth that is not a frame boundary, no text position outside `[0, len]` taken from the grouping stack, no capture
+    slot outside the arrays, no backreference reading outside the text, no operator without a `case`.
+    No per-program hypothesis is left; what remains trusted is the tie model ↔ Go (legs Wr and W) and that the parser
+    produces `treeWf` trees (evaluated by leg Wr). -/
+theorem emitted_no_fault (ti : Writer.TreeInfo) (root : Writer.GoNode) (h : Writer.treeWf ti root = true)
+    (env : Env) (pos : Int) (h0 : 0 ≤ pos) (hn : pos ≤ env.len) (fuel : Nat) :
+    ∃ s0, init (Writer.emit ti root) pos = .ok s0 ∧ ∀ f, (run (Writer.emit ti root) env fuel s0).1 ≠ .fault f := by
+  obtain ⟨bs, a, hb, hty⟩ := emit_has_typing ti root h
+  exact typing_sound _ (emit_vm_wf ti root h) bs hb a hty env pos h0 hn fuel
+
+/-- the same for the bool-only program -/
+theorem emittedQuick_no_fault (ti : Writer.TreeInfo) (root : Writer.GoNode) (h : Writer.treeWf ti root = true)
+    (qp : Prog) (hq : Writer.emitQuick ti root = some qp)
+    (env : Env) (pos : Int) (h0 : 0 ≤ pos) (hn : pos ≤ env.len) (fuel : Nat) :
+    ∃ s0, init qp pos = .ok s0 ∧ ∀ f, (run qp env fuel s0).1 ≠ .fault f := by
+  obtain ⟨bs, a, hb, hty⟩ := emitQuick_has_typing ti root h qp hq
+  exact typing_sound _ (emitQuick_vm_wf ti root h qp hq) bs hb a hty env pos h0 hn fuel
+
+/-! non-vacuity of (B) and (C) -/
+
+/-- the reduced tree of `(?=a)\w+(?<!b)` (the set payload is `CharSet.Hash()` of `\w`) -/
+def tree4 : Writer.GoNode :=
+  .capture 0 (-1) (.concat [.poslook (.char Generated.Opcodes.opOne false false 97),
+    .setloop Generated.Opcodes.opSetloop false false [0, 0, 0, 0, 0, 1, 0, 0, 0, 1, 87] 1 Writer.maxInt32,
+    .neglook (.char Generated.Opcodes.opOne true false 98)])
+
+/-- its emitted code is what `regexp2.MustCompile` produces; it is well-formed, and the executable check finds it typed -/
+example : (Writer.emit Lemmas.Compose.info1 tree4).codes.toList =
+    [23, 25, 31, 34, 31, 9, 97, 33, 36, 2, 0, 1, 5, 0, 2147483647, 34, 23, 21, 73, 98, 35, 36, 32, 0, -1, 40] ∧
+    (Writer.emit Lemmas.Compose.info1 tree4).trackcount = 12 ∧
+    Writer.treeWf Lemmas.Compose.info1 tree4 = true ∧
+    StackTyping.typed (Writer.emit Lemmas.Compose.info1 tree4) = true := by decide
+
+/-- the hypotheses of (B) and (C) are met by the trees of `(?:ab?)*c`, `(a)|b\1` and `(?=a)\w+(?<!b)` -/
+example : ∃ bs a, (Writer.emit Lemmas.Compose.info1 Lemmas.Compose.tree1).boundaries = some bs ∧
+    TypingW (Writer.emit Lemmas.Compose.info1 Lemmas.Compose.tree1) bs a :=
+  emit_has_typing _ _ (by decide)
+example : ∃ s0, init (Writer.emit Lemmas.Compose.info2 Lemmas.Compose.tree2) 1 = .ok s0 ∧
+    ∀ f, (run (Writer.emit Lemmas.Compose.info2 Lemmas.Compose.tree2) demoEnv 1000 s0).1 ≠ .fault f :=
+  emitted_no_fault _ _ (by decide) demoEnv 1 (by decide) (by decide) 1000
+example : ∃ s0, init (Writer.emit Lemmas.Compose.info1 tree4) 0 = .ok s0 ∧
+    ∀ f, (run (Writer.emit Lemmas.Compose.info1 tree4) demoEnv 1000 s0).1 ≠ .fault f :=
+  emitted_no_fault _ _ (by decide) demoEnv 0 (by decide) (by decide) 1000
+example : ∃ qp, Writer.emitQuick Lemmas.Compose.info2 Lemmas.Compose.tree3 = some qp ∧
+    ∃ s0, init qp 0 = .ok s0 ∧ ∀ f, (run qp demoEnv 1000 s0).1 ≠ .fault f :=
+  ⟨_, rfl, emittedQuick_no_fault Lemmas.Compose.info2 Lemmas.Compose.tree3 (by decide) _ rfl demoEnv 0
+    (by decide) (by decide) 1000⟩
+
+/-- the typing hypothesis cannot be dropped: `untypedDemo` (`Lazybranch 3; Getmark; Stop`) is well-formed, its attempt
+    ends in `stackUnderflow` (example in the section above), hence it has NO typing at all -/
+example : Lemmas.StackTyping.untypedDemo.wf = true ∧
+    ¬ ∃ bs a, Lemmas.StackTyping.untypedDemo.boundaries = some bs ∧ TypingW Lemmas.StackTyping.untypedDemo bs a := by
+  refine ⟨by decide, ?_⟩
+  rintro ⟨bs, a, hb, hty⟩
+  obtain ⟨s0, hi, hf⟩ := typing_sound _ (by decide) bs hb a hty demoEnv 0 (by decide) (by decide) 10
+  have hdec : (match init Lemmas.StackTyping.untypedDemo 0 with
+     | .ok s0 => (match (run Lemmas.StackTyping.untypedDemo demoEnv 10 s0).1 with
+        | .fault .stackUnderflow => true
+        | _ => false)
+     | .error _ => false) = true := by decide
+  rw [hi] at hdec
+  simp only at hdec
+  split at hdec
+  · next h => exact hf _ h
+  · cases hdec
+
+end TypingSound
 
 end RegexVerif.Props.C10
